@@ -238,6 +238,22 @@ def insertAll : Node V → List (Endpoint V) → Except RegErr (Node V)
     | .error err => .error err
     | .ok t' => insertAll t' es
 
+/-- `insertAll` together with the router's sticky `has_versioned_routes` flag
+(set by `insert` whenever the endpoint's range is not `All`). -/
+def insertAllF : Node V → Bool → List (Endpoint V) → Except RegErr (Node V × Bool)
+  | t, f, [] => .ok (t, f)
+  | t, f, e :: es =>
+    match Node.insert t e with
+    | .error err => .error err
+    | .ok t' => insertAllF t' (f || !e.versions.isAll) es
+
+/-- `ServerBuilder::start` with `VersionPolicy::Unversioned`: refused when the
+router holds any version-restricted route (server.rs, `UnversionedServerHasVersionedRoutes`). -/
+def unversionedServerStarts (es : List (Endpoint V)) : Option Bool :=
+  match insertAllF Node.empty false es with
+  | .error _ => none
+  | .ok (_, flag) => some (!flag)
+
 end Insert
 
 section Lookup
